@@ -23,6 +23,16 @@
 // that transaction is a bare ABORT with the same signers and fees; the
 // following blocks must agree as well; a halting transaction differs from its
 // ABORT twin by exactly the model's effects.
+//
+// Layer C (natives_test.go): native setter then fault - the natives' caches.
+//
+// Layer D (alias_*_test.go): data the ledger hands to the VM (storage values in
+// every cache state, iterator items, the script container, contract states,
+// native results, literals of the executing script) x every VM instruction
+// that makes a Buffer or exposes a compound from it x an in-place write x
+// {halt, abort, throw, caught throw; entry script or deployed contract}, as a
+// test invocation and in real blocks on all three backends, each against a
+// twin without the write: in-place writes must never reach the ledger.
 package c04
 
 import (
@@ -63,6 +73,7 @@ type checker struct {
 	leakChecks vk.Counter // chunks of test invocations after which the node's committed state was compared with the prepared one
 	twins      vk.Counter // block-mode programs compared with their bare-THROW twin
 	twinStates *vk.Set    // distinct state roots reached by them
+	dcov       map[string]any
 	famStats   []*famStat
 }
 
@@ -524,6 +535,11 @@ func TestCheck(t *testing.T) {
 	// ---- layer C: native setter then fault (native caches) ----
 	ccov, cexecs := c.runNatives()
 
+	// ---- layer D: node-owned data handed to the VM and written in place (alias_*_test.go) ----
+	dcov, dexecs := c.runAlias()
+	c.dcov = dcov
+	cexecs += dexecs
+
 	// ---- layer A, multi-transaction blocks (one VM is reused within a block) ----
 	nMulti := c.runMulti()
 	fmt.Printf("layer A multi-transaction blocks: %d blocks, %.1fs\n", nMulti, r.Elapsed())
@@ -622,6 +638,7 @@ func (c *checker) finish(r *vk.Run, all, blk []string, nsolo int, spaceInfo, hIn
 			"compared": "state root (storage of all contracts and natives) after the block; identical signers, fees, nonce"},
 		"layerB":                          bstat.cov,
 		"layerC_native_setter_then_fault": ccov,
+		"layerD_ledger_data_written_in_place": c.dcov,
 		"rule": "states = distinct final model states; transitions = contract calls (entry, RUN, native, payment callback) executed by the model; " +
 			"every program is executed on the real code and compared in VM state, op log, notifications, storage of all instances, GAS/NEO balances, Policy fee",
 	}
@@ -634,6 +651,9 @@ func (c *checker) finish(r *vk.Run, all, blk []string, nsolo int, spaceInfo, hIn
 		"open finding pending-exception-drops-completed-call: differences that are completely explained by the model variant 'a call that RETURNS while an exception is pending loses its changes' are reported under that key prefix (listed in KNOWN_FINDINGS.txt); the reference interpreter itself keeps such calls, as the property text demands",
 		"iterator programs in which a change of the iterated storage survives until the iterator is consumed are not generated: what an open iterator yields after a committed write is not part of the property",
 		"twin differential: a program and its twin (failed callees replaced by bare THROWs, same signers/fees/nonce) must reach the same state root; identical transactions on the two replicas must do so too",
+		"layer D: a Buffer or compound item the VM made from data the ledger handed out (CONVERT, RIGHT, LEFT, SUBSTR, CAT, NEWBUFFER+MEMCPY; items returned by interops and natives) is private to the execution: writing it in place is not a storage change, so the case and its twin (same script length, fees, signers, nonce; mutation left out) must be indistinguishable for the ledger - after a fault, a caught throw and a HALT alike (only Storage.Put writes)",
+		"layer D, taken from the VM: a mutation the VM itself refuses (read-only notification state, wrong item type, empty array) faults like ABORT; its twin aborts at the same place",
+		"layer D does not compare values that contain transaction or block hashes across the two replicas (the scripts differ in one operand, so the hashes do); those sources are checked within one execution (second read equals the snapshot taken before the mutation) and through the ledger state",
 	})
 }
 
